@@ -699,12 +699,24 @@ func cmdReflectReplay(args []string) {
 					p := newPulsar(mt)
 					key := init
 					okRun := true
-					for _, k := range seq {
+					for si, k := range seq {
 						t := transOf[key][k]
 						rp := applyOp(p.ProtoReflect(), ops[k-1], true)
 						if !retEq(rp, t.ret) {
 							o := ops[k-1]
-							emit(reflVerdict{N: treeHist, P: append([]int(nil), seq...), I: k, Op: o, What: "tree:ret", Who: "pulsar", Obs: rp, Want: t.ret, Shape: fieldShape(md, o)})
+							// the reference decides whether the model is right about THIS history (the
+							// graph replay had it in the loop for one representative history per state
+							// only): the same sequence on a fresh dynamicpb message
+							d := dynamicpb.NewMessage(md)
+							var rd RRet
+							for _, kk := range seq[:si+1] {
+								rd = applyOp(d.ProtoReflect(), ops[kk-1], false)
+							}
+							who := "pulsar"
+							if !retEq(rd, t.ret) {
+								who, rp = "dynamicpb", rd
+							}
+							emit(reflVerdict{N: treeHist, P: append([]int(nil), seq...), I: k, Op: o, What: "tree:ret", Who: who, Obs: rp, Want: t.ret, Shape: fieldShape(md, o)})
 							okRun = false
 							break
 						}
@@ -713,8 +725,20 @@ func cmdReflectReplay(args []string) {
 					if okRun {
 						last := ops[seq[len(seq)-1]-1]
 						var st any
+						// (as above: the reference arbitrates between the code and the model)
+						refTwin := func() protoreflect.Message {
+							d := dynamicpb.NewMessage(md)
+							for _, kk := range seq {
+								applyOp(d.ProtoReflect(), ops[kk-1], false)
+							}
+							return d.ProtoReflect()
+						}
 						if pn := catch(func() { st = proj.Normalize(proj.Project(proj.Impl(p), proj.WrapImpl), md) }); pn != "" || !jsonEq(st, stateJSON[key]) {
-							emit(reflVerdict{N: treeHist, P: append([]int(nil), seq...), Op: last, What: "tree:state", Who: "pulsar", Obs: st, Want: stateJSON[key], Shape: fieldShape(md, last)})
+							who := "pulsar"
+							if rst := proj.Normalize(proj.Project(refTwin(), proj.WrapNone), md); !jsonEq(rst, stateJSON[key]) {
+								who, st = "dynamicpb", rst
+							}
+							emit(reflVerdict{N: treeHist, P: append([]int(nil), seq...), Op: last, What: "tree:state", Who: who, Obs: st, Want: stateJSON[key], Shape: fieldShape(md, last)})
 						} else if exp, ok := readsOf[key]; ok {
 							for j, ro := range rdops {
 								if j >= len(exp) {
@@ -723,7 +747,11 @@ func cmdReflectReplay(args []string) {
 								treeReads++
 								if rp := applyOp(p.ProtoReflect(), ro, true); !retEq(rp, exp[j]) {
 									r := ro
-									emit(reflVerdict{N: treeHist, P: append([]int(nil), seq...), Op: last, What: "tree:read", Who: "pulsar", Read: &r, Obs: rp, Want: exp[j], Shape: fieldShape(md, ro)})
+									who := "pulsar"
+									if rd := applyOp(refTwin(), ro, false); !retEq(rd, exp[j]) {
+										who, rp = "dynamicpb", rd
+									}
+									emit(reflVerdict{N: treeHist, P: append([]int(nil), seq...), Op: last, What: "tree:read", Who: who, Read: &r, Obs: rp, Want: exp[j], Shape: fieldShape(md, ro)})
 									break
 								}
 							}
